@@ -46,6 +46,17 @@ CHECKS = {
         "wrapped so that proxy classes are looked up as the Python type they stand for.",
         design="4/C04",
     ),
+    "C06": dict(
+        text="Differential check between two independent visitors of apischema: for each program / option set the "
+        "deserialization schema is generated concretely by the real builder, and every JSON datum within bounds (as in C01) "
+        "is judged both by the compiled deserialization method (executed symbolically) and by a JSON Schema evaluator "
+        "running on the same symbolic datum; the two verdicts must be equal on the common semantic domain named in the "
+        "property. The evaluator is itself validated on every run against the jsonschema library on realised triples.",
+        note="Schema generation is concrete per program (bound on programs). Domain exclusions: integer-valued floats at "
+        "integer positions, NaN under numeric keywords, multipleOf on floats, duplicates at set positions, fall_back_on_default "
+        "metadata. Trusted: vf/oracle/jsvalid.py (cross-checked), CrossHair, z3.",
+        design="4/C06",
+    ),
 }
 
 NOT_YET = "check not built yet at this commit (work in progress, see DESIGN.md section 4)"
